@@ -36,10 +36,21 @@ def _check_tree() -> str:
     return p
 
 
+def _quiet() -> None:
+    """gallia logs warnings for every injected fault; without a handler Python prints them to stderr."""
+    import logging
+
+    lg = logging.getLogger("gallia")
+    if not any(isinstance(h, logging.NullHandler) for h in lg.handlers):
+        lg.addHandler(logging.NullHandler())
+
+
 def _worker(args: tuple[str, dict[str, Any], int]) -> Collector | str:
     modname, spec, seed = args
     try:
         import gallia.command  # noqa: F401  (import order quirk: must come first)
+
+        _quiet()
 
         mod = importlib.import_module(modname)
         return mod.run_shard(spec, seed)
@@ -59,7 +70,7 @@ def write_replay(prop: str, v: dict[str, Any]) -> Path:
     d = OUT / "replays" / prop
     d.mkdir(parents=True, exist_ok=True)
     p = d / f"{digest(v['bucket'])}.json"
-    p.write_text(json.dumps({"property": prop, **v}, indent=1, sort_keys=True))
+    p.write_text(json.dumps({"property": prop, **{k: x for k, x in v.items() if not k.startswith("_")}}, indent=1, sort_keys=True))
     return p
 
 
@@ -80,6 +91,7 @@ def main(argv: list[str]) -> int:
 
     import gallia.command  # noqa: F401
 
+    _quiet()
     gpath = _check_tree()
     modname = f"vf.props.{prop.lower()}"
     mod = importlib.import_module(modname)
@@ -164,11 +176,13 @@ def main(argv: list[str]) -> int:
             total.exclude(b, total.violation_counts[b])
             continue
         # optional focused shrink
-        if hasattr(mod, "shrink") and os.environ.get("VERIF_NO_SHRINK") != "1":
+        n_shrunk = sum(1 for x in violations_out if x.get("_shrunk"))
+        if hasattr(mod, "shrink") and os.environ.get("VERIF_NO_SHRINK") != "1" and n_shrunk < (3 if tier == "quick" else 12):
             try:
                 small = mod.shrink(b, v["witness"], seed)
                 if small is not None:
                     v = dict(v, witness=jsonable(small))
+                v = dict(v, _shrunk=True)
             except Exception:  # noqa: BLE001
                 log(f"shrink failed for {b}:\n{traceback.format_exc()}")
         violations_out.append(v)
